@@ -66,6 +66,8 @@ def tr_sendsites(repo, work, coq):
     open(gen, 'w').write(p.stdout)
     info['generated_sites'] = p.stdout.count('s_fn :=')
     info['unguarded'] = [l.strip() for l in p.stdout.splitlines() if 's_guarded := false' in l]
+    info['generated_replies'] = p.stdout.count('r_fn :=')
+    info['unsafe_replies'] = [l.strip() for l in p.stdout.splitlines() if 'r_buffered := false' in l and 'r_plain_recv := false' in l]
     rc, out = _coqc(gen, coq)
     if rc != 0:
         info['error'] = 'generated file does not compile: ' + out[-1500:]
@@ -73,11 +75,13 @@ def tr_sendsites(repo, work, coq):
     obl = os.path.join(work, 'ShutdownGenObl.v')
     open(obl, 'w').write('From Coq Require Import List Bool Arith.\nFrom PS Require Import Model.Shutdown.\nFrom VG Require Import ShutdownGen.\n'
                          'Lemma gen_all_guarded : all_guarded gen_sites = true.\nProof. reflexivity. Qed.\n'
-                         'Lemma gen_nonempty : Nat.leb 25 (length gen_sites) = true.\nProof. reflexivity. Qed.\n')
+                         'Lemma gen_nonempty : Nat.leb 25 (length gen_sites) = true.\nProof. reflexivity. Qed.\n'
+                         'Lemma gen_replies_safe : all_replies_safe gen_replies = true.\nProof. reflexivity. Qed.\n'
+                         'Lemma gen_replies_nonempty : Nat.leb 8 (length gen_replies) = true.\nProof. reflexivity. Qed.\n')
     rc, out = _coqc(obl, coq)
     if rc != 0:
-        info['error'] = ('obligation all_guarded gen_sites = true no longer checks: these sends to the event loop have no ctx.Done() / default arm: '
-                         + '; '.join(info['unguarded']) + ' || ' + out[-600:])
+        info['error'] = ('obligation all_guarded gen_sites = true / all_replies_safe gen_replies = true no longer checks: sends to the event loop without a ctx.Done() / default arm: '
+                         + '; '.join(info['unguarded']) + ' ; answers of the event loop on an unbuffered channel whose maker may have left: ' + '; '.join(info['unsafe_replies']) + ' || ' + out[-600:])
         return False, info
     info['discharged'] = 1
     return True, info
